@@ -26,6 +26,7 @@ func checkC16(c *Ctx) {
 	c.Rule("C16/R8", "digit order: wherever a renderer writes a number digit by digit (footnote marks, spreadsheet column names), digits peeled off least-significant first are stored from the end of the buffer backwards, or the buffer is reversed afterwards")
 	c.Rule("C16/R9", "CSV cell references: a closure of ToCSV that derives a cell reference from the length of the row under assembly is called, inside the column loops, only after the padding closure on every path of the iteration; and no value is appended to the row after a conditionally appended one of the same iteration without a padding call in between")
 	c.Rule("C16/R10", "rows and records stay in step: in the CSV renderers every csv.Writer.Write is followed on every path by an increment of the shared row counter")
+	c.Rule("C16/R16", "the CSV warning names the cell about to be written: every call of the warning closure in ToCSV is followed, before the loop goes round, by the append of that cell to the row whose length gives the label")
 	c.Rule("C16/R15", "the renderers' per-cell closures start every call alike: no closure assigns a captured slice variable a re-slice of itself with a lower bound (a buffer that only shrinks from cell to cell)")
 	c.Rule("C16/R14", "a column's left margin is used only once it is complete: inside a loop that still stores into the margin table, an element read from it flows back into the table (the running maximum) and nowhere else")
 	c.Rule("C16/R13", "every header node's children are queued: in the level-by-level walk of the header tree each path through one iteration passes the append of the node's Children")
@@ -48,6 +49,7 @@ func checkC16(c *Ctx) {
 	c16EveryChildQueued(c, p)
 	c16MarginsComplete(c, p)
 	c16NoShrinkingCaptures(c, p)
+	c16WarnBeforeCell(c, p)
 }
 
 // c16CSVRows (C16/R10): warnings name spreadsheet rows, so the row counter and the records written must stay in step: in
